@@ -31,7 +31,7 @@ ASSUMPTIONS = [
     "task names are unique within a challenge and contain neither ':' nor ',' (the loader rejects duplicates; 'a:b' cannot be written as a name filter)",
     "include and exclude lists are mutually exclusive and non-empty when given (argparse group in rally.py; an empty CSV means 'no filter')",
     "unchanged properties are compared on all instance attributes of Task and Operation (deep copies taken before filtering), not on object identity",
-    "the end-to-end race on the actor simulator (DESIGN: 10 % sample in quick) is not part of this module yet: run_on_simulator() is a hook the lead fills in",
+    "the end-to-end race on the actor simulator runs for a ~9 % sample of the cases (drawn flag) with scripted operations; its trusted base is that of C01",
 ]
 BUDGET = {"quick": 3000, "thorough": 20000}
 REQUIRED_CLASSES = {
@@ -88,14 +88,60 @@ def is_excluded(case, known):
 # ------------------------------------------------------------------------------------------------ hook for the lead
 def run_on_simulator(schedule_spec, filtered_schedule=None, obs=None):
     """
-    HOOK (not implemented here): run the filtered schedule as a race on the actor simulator E1 and require one BenchmarkComplete, no
-    BenchmarkFailure, with progress output enabled (DESIGN C11, "runnable", thorough and a 10 % sample in quick).
+    Runs the schedule the *real* filter left behind as a race on the actor simulator E1 (sim.race) with progress output enabled and
+    applies C01's clauses: one BenchmarkComplete, no BenchmarkFailure, every remaining task runs on all its clients, steps in order.
+    The operations are replaced by the scripted "sim-op" (0.125 s per request, unthrottled); names, clients, iterations / time periods,
+    clients caps and completed-by flags are taken from the real objects.
 
-    :param schedule_spec: the *filtered* schedule as a gen/schedules.py spec (reference filter applied to the generated spec)
-    :param filtered_schedule: the real Task/Parallel objects the real filter left behind (what the driver would get)
-    :param obs: the case's Obs, for obs.violation("runnable/race/<cause>", ...)
+    :param schedule_spec: the *filtered* schedule as a gen/schedules.py spec (unused: the real objects are what the driver would get)
+    :param filtered_schedule: the real Task/Parallel objects the real filter left behind
+    :param obs: the case's Obs
     """
-    return None
+    import importlib
+
+    from sim import race as sim_race
+
+    c01 = importlib.import_module("checks.c01_schedule_steps")
+    req = [{"pre": 0, "wire": [[0, 0.125]], "post": 0, "outcome": "ok", "shape": "dict", "weight": 1, "unit": "ops"}]
+
+    def leaf(t):
+        d = {"name": t.name, "clients": t.clients, "stride": 1, "requests": req}
+        if t.time_period is not None or t.warmup_time_period is not None:
+            d.update(mode="time", warmup_time_period=t.warmup_time_period, time_period=t.time_period if t.time_period is not None else 1)
+        else:
+            d.update(mode="iterations", warmup_iterations=t.warmup_iterations, iterations=t.iterations if t.iterations is not None else 1)
+        return d
+
+    schedule = []
+    for el in filtered_schedule or []:
+        if hasattr(el, "tasks"):
+            if not el.tasks:
+                obs.violation(KNOWN_EMPTY, "the filtered schedule contains a parallel element without tasks")
+                return None
+            cb = None
+            for t in el.tasks:
+                if t.completes_parent:
+                    cb = t.name
+                elif t.any_completes_parent:
+                    cb = "any"
+            schedule.append({"parallel": [leaf(t) for t in el.tasks], "clients": el._clients, "completed_by": cb})  # pylint: disable=protected-access
+        else:
+            schedule.append(leaf(el))
+    if not schedule:
+        return None
+    case = {"schedule": schedule, "hosts": [2], "test_mode": True, "offsets": [0.0], "delays": [0, 2], "wake_late": [0], "prep_tasks": [],
+            "seed": 0, "quiet": False, "preempt": None}
+    if c01.named_task_wraps(case):
+        return None  # known finding of C01, not a property of the filter
+    r = sim_race.run_race(case)
+    sub = type(obs)()
+    c01.check_race(case, r, sub)
+    for sig, msg in sub.violations:
+        obs.violation(f"runnable/race/{sig}", msg)
+    obs.cls("simulated-race")
+    if r.progress.lines:
+        obs.cls("simulated-race-with-progress-output")
+    return r
 
 
 def _filtered_spec(spec, mode, filters):
